@@ -42,6 +42,27 @@ functions = [
      'sig': 'bool DecodeSymbols(uint32_t num_values, int num_components, struct DecoderBuffer *src_buffer, uint32_t *out_values)',
      'subst': [(r'src_buffer->Decode\(&scheme\)', 'DecoderBuffer_Decode_u8(src_buffer, &scheme)', 1),
                (r'DecodeTaggedSymbols<RAnsSymbolDecoder>\(', 'DecodeTaggedSymbols_stub(', 1), (r'DecodeRawSymbols<RAnsSymbolDecoder>\(', 'DecodeRawSymbols(', 1)]},
+    # the two symbol loops, over a ghost symbol decoder (its Create / StartDecoding / DecodeSymbol are under contract above and in unit ans)
+    {'name': 'DecodeRawSymbolsInternal', 'file': E + 'symbol_decoding.cc',
+     'anchor': r'template <class SymbolDecoderT>\s*bool DecodeRawSymbolsInternal\(uint32_t num_values, DecoderBuffer \*src_buffer,\s*uint32_t \*out_values\)\s*\{',
+     'sig': 'bool DecodeRawSymbolsInternal(uint32_t num_values, struct DecoderBuffer *src_buffer, uint32_t *out_values)',
+     'subst': [(r'SymbolDecoderT decoder;', 'struct GSD decoder; GSD_ctor(&decoder);', 1), (r'decoder\.Create\(src_buffer\)', 'GSD_Create(&decoder, src_buffer)', 1), (r'decoder\.num_symbols\(\)', 'GSD_num_symbols(&decoder)', 1),
+               (r'decoder\.StartDecoding\(src_buffer\)', 'GSD_StartDecoding(&decoder, src_buffer)', 1), (r'decoder\.DecodeSymbol\(\)', 'GSD_DecodeSymbol(&decoder)', 1), (r'decoder\.EndDecoding\(\)', 'GSD_EndDecoding(&decoder)', 1)],
+     'loops': {0: '__CPROVER_assigns(i, decoder.decoded, __CPROVER_object_whole(out_values))\n__CPROVER_loop_invariant(i <= num_values && decoder.decoded == i && decoder.started == 1 && decoder.num_symbols >= 1)\n'
+                  '__CPROVER_loop_invariant(ghost_len >= i || ghost_len >= num_values || out_values[ghost_len] == GSD_SYMBOL(ghost_len))\n__CPROVER_decreases(num_values - i)'}},
+    {'name': 'DecodeTaggedSymbols', 'file': E + 'symbol_decoding.cc',
+     'anchor': r'template <template <int> class SymbolDecoderT>\s*bool DecodeTaggedSymbols\(uint32_t num_values, int num_components,\s*DecoderBuffer \*src_buffer, uint32_t \*out_values\)\s*\{',
+     'sig': 'bool DecodeTaggedSymbols(uint32_t num_values, int num_components, struct DecoderBuffer *src_buffer, uint32_t *out_values)',
+     'subst': [(r'SymbolDecoderT<5> tag_decoder;', 'struct GSD tag_decoder; GSD_ctor(&tag_decoder);', 1), (r'tag_decoder\.Create\(src_buffer\)', 'GSD_Create(&tag_decoder, src_buffer)', 1),
+               (r'tag_decoder\.num_symbols\(\)', 'GSD_num_symbols(&tag_decoder)', 1), (r'tag_decoder\.StartDecoding\(src_buffer\)', 'GSD_StartDecoding(&tag_decoder, src_buffer)', 1),
+               (r'tag_decoder\.DecodeSymbol\(\)', 'GSD_DecodeSymbol(&tag_decoder)', 1), (r'tag_decoder\.EndDecoding\(\)', 'GSD_EndDecoding(&tag_decoder)', 1),
+               (r'src_buffer->StartBitDecoding\(false, nullptr\)', 'GBITS_Start(src_buffer)', 1), (r'src_buffer->DecodeLeastSignificantBits32\(bit_length, &val\)', 'GBITS_Decode(src_buffer, bit_length, &val)', 1),
+               (r'src_buffer->EndBitDecoding\(\)', 'GBITS_End(src_buffer)', 1)],
+     'loops': {0: '__CPROVER_assigns(i, value_id, tag_decoder.decoded, ghost_bits_read, __CPROVER_object_whole(out_values))\n'
+                  '__CPROVER_loop_invariant(i <= num_values && i % (uint32_t)num_components == 0 && value_id == (int)i && tag_decoder.started == 1 && tag_decoder.num_symbols >= 1 && ghost_bits_mode == 1)\n'
+                  '__CPROVER_decreases(num_values - i)',
+               1: '__CPROVER_assigns(j, value_id, ghost_bits_read, __CPROVER_object_whole(out_values))\n'
+                  '__CPROVER_loop_invariant(0 <= j && j <= num_components && value_id == (int)i + j && ghost_bits_mode == 1)\n__CPROVER_decreases(num_components - j)'}},
 ]
 UNIT = {'name': 'symbols', 'structs': [], 'consts': [
             {'const': 'SYMBOL_CODING_TAGGED', 'file': 'src/draco/compression/config/compression_shared.h', 'regex': r'SYMBOL_CODING_TAGGED = (\d+),'},
@@ -52,6 +73,8 @@ UNIT = {'name': 'symbols', 'structs': [], 'consts': [
                      'struct RSD { struct vec_prob probability_table_; uint32_t num_symbols_; struct RAnsDecoder *ans_; /* embedded member modelled as a separately allocated object */ int64_t remaining_at_entry; };']}
 SRC = 'contracts/symbols.c'
 DEFS = ['-DDRACO_BACKWARDS_COMPATIBILITY_SUPPORTED', '-DRANS_P=12']
+SHL24 = (r'arithmetic overflow on signed shl in \(signed int\)mem\[\(signed long int\)3\] << 24',
+         'C-vs-C++ difference: uint8_t promoted to int and shifted by 24 may set the sign bit; undefined in C11, defined in C++11 and later (CWG 1457). Shift-distance check stays enabled.')
 JOBS = []
 def J(id, entry, props, enforce=None, replace=(), loops=False, unwind=None, unwind_reason=None, **kw):
     j = {'id': 'symbols.' + id, 'src': SRC, 'entry': entry, 'enforce': enforce, 'replace': list(replace), 'loops': loops,
@@ -73,6 +96,13 @@ J('Create.bounded', 'h_rsd_create', ['C08', 'C02'], defines=DEFS + ['-DCREATE_MA
   replace=['RAnsDecoder_rans_build_look_up_table'], timeout=3000, cost=8, cbmc=['--object-bits', '10'], tier='thorough')
 J('DecodeRawSymbols.contract', 'h_enf_DecodeRawSymbols', ['C08', 'C05', 'C02'], enforce='DecodeRawSymbols', replace=['DecoderBuffer_Decode_u8', 'DecodeRawSymbolsInternal_b'], cbmc=['--object-bits', '10'])
 J('DecodeSymbols.contract', 'h_enf_DecodeSymbols', ['C08', 'C05', 'C02'], enforce='DecodeSymbols', replace=['DecoderBuffer_Decode_u8', 'DecodeRawSymbols', 'DecodeTaggedSymbols_stub'])
-ASSUMPTIONS = ['RAnsSymbolDecoder<B> is instantiated through -DRANS_P = ComputeRAnsPrecisionFromUniqueSymbolsBitLength(B) (the function itself is under contract and pinned to the frozen table)',
+J('StartDecoding', 'h_rsd_start', ['C08', 'C02', 'C18', 'C06'], ignore=[SHL24], unwind=14, unwind_reason='varint recursion <= 11 (uint64); no input-length loop; unwinding assertions on')
+J('DecodeRawSymbolsInternal.contract', 'h_enf_DecodeRawSymbolsInternal', ['C08', 'C02'], enforce='DecodeRawSymbolsInternal', loops=True, cbmc=['--object-bits', '10'],
+  replace=['GSD_ctor', 'GSD_Create', 'GSD_num_symbols', 'GSD_StartDecoding', 'GSD_DecodeSymbol', 'GSD_EndDecoding'])
+for nc in (1, 2, 3, 4):   # tiled over the component count (a symbolic stride makes the divisibility invariant a division by a variable: no answer in 10 min)
+    J('DecodeTaggedSymbols.contract.nc%d' % nc, 'h_enf_DecodeTaggedSymbols', ['C08', 'C02'], enforce='DecodeTaggedSymbols', loops=True, cbmc=['--object-bits', '10'], defines=DEFS + ['-DTAG_NC=%d' % nc],
+      replace=['GSD_ctor', 'GSD_Create', 'GSD_num_symbols', 'GSD_StartDecoding', 'GSD_DecodeSymbol', 'GSD_EndDecoding', 'GBITS_Start', 'GBITS_Decode', 'GBITS_End'], no_vacuity=nc > 1)
+ASSUMPTIONS = ['DecodeRawSymbolsInternal / DecodeTaggedSymbols: the symbol decoder object is a ghost (GSD_*: Create before StartDecoding before DecodeSymbol; DecodeSymbol REQUIRES a started decoder with at least one symbol -- the precondition of rans_read, unit ans); the bit reader of the tagged scheme is a ghost too (GBITS_*); what is proved is the control flow, the index arithmetic into out_values and that exactly num_values symbols are produced in order',
+               'RAnsSymbolDecoder<B> is instantiated through -DRANS_P = ComputeRAnsPrecisionFromUniqueSymbolsBitLength(B) (the function itself is under contract and pinned to the frozen table)',
                'probability_table_.resize is a contract-only stub carrying the C18 bound; the template-template dispatch DecodeRawSymbolsInternal<SymbolDecoderT<k>> is rewritten to a stub that records k in ghost state',
                'DecodeTaggedSymbols / DecodeRawSymbolsInternal bodies (loops over DecodeSymbol) are not under contract: their per-symbol step is ans.rans_read; precondition num_values % num_components == 0 of the tagged loop is a caller obligation']
